@@ -184,7 +184,14 @@ def run(pid, tier, seed, res, only=None):
         else:
             defaulted = [j for j, p_ in enumerate(prog["params"]) if p_["default"] is not None]
             pins = [prr.choice(defaulted)] if defaulted and prr.random() < 0.3 else []
-        base = dict(engine="kcompose", prog=prog, ins=ins, outs=outs, pins=pins, args=[enc(a, Keys()) for a in args])
+        # inputs given as Ellipsis: every parameter of the original DAG (required or defaulted), in order
+        if only is not None and "ellipsis" in only[pi]:
+            ellipsis = bool(only[pi]["ellipsis"])
+        else:
+            ellipsis = bool(prog["params"]) and prr.random() < 0.15
+        if ellipsis:
+            ins, pins = [], list(range(len(prog["params"])))
+        base = dict(engine="kcompose", prog=prog, ins=ins, outs=outs, pins=pins, ellipsis=ellipsis, args=[enc(a, Keys()) for a in args])
         res.evaluations += 1
         # original before
         ctl0 = tz.Ctl(free_run=True)
@@ -193,7 +200,7 @@ def run(pid, tier, seed, res, only=None):
         in_ids = [sids[i] for i in ins] + [d.input_uxns[j].id for j in pins]
         out_ids = [sids[i] for i in outs]
         try:
-            cd = d.compose("cmp", in_ids, out_ids[0] if single_out else out_ids)
+            cd = d.compose("cmp", ... if ellipsis else in_ids, out_ids[0] if single_out else out_ids)
             impl = ("ok", cd)
         except ValueError as e:
             impl = ("ValueError", str(e)[:160])
@@ -234,8 +241,8 @@ def run(pid, tier, seed, res, only=None):
         # the composed DAG takes constants and DEFAULTS from the original; required parameters are not
         # available to it (compose refuses when the outputs need one), so the reference gets placeholders
         nreq = sum(1 for p in prog["params"] if p["default"] is None)
-        ref_args = [Const(99, False) for _ in range(nreq)]
-        if pins:
+        ref_args = [(Const(95 + j, j % 2 == 0) if j in pins else Const(99, False)) for j in range(nreq)]
+        if pins and max(pins) >= nreq:
             for j in range(nreq, max(pins) + 1):
                 ref_args.append(Const(95 + j, j % 2 == 0) if j in pins else kvalue.default_value(prog["params"][j]))
         ref = outcome(lambda: ref_f(*ref_args))
